@@ -80,7 +80,42 @@ STAR_COMMENTS = ["/***/", "/* a **/", "/** b */"]
 SPACES = [" ", "  ", "\n", "\t", " \n "]
 
 
-def relayout(text, rng, comments=True, stars=False):
+def split_fmt(tok):
+    """A string literal token cut at its outermost splices: [("lit", text), ("body", text), ("lit", text), ...];
+    the pieces concatenate to the token, `%(' and `%)' belonging to the literal pieces."""
+    i = 2 if tok[0] == "r" else 1
+    out, start = [], 0
+    while i < len(tok):
+        c = tok[i]
+        if c == "\\":
+            i += 2
+            continue
+        if tok.startswith("%(", i):
+            # the body runs to the %) that is not inside a nested literal or a nested splice
+            j, depth, instr = i + 2, 1, [False]
+            while j < len(tok) and depth:
+                if not instr[-1] and tok.startswith("%)", j):
+                    depth -= 1; instr.pop(); j += 2; continue
+                if instr[-1] and tok.startswith("%(", j):
+                    depth += 1; instr.append(False); j += 2; continue
+                if tok[j] == "\\" and instr[-1]:
+                    j += 2; continue
+                if tok[j] == '"':
+                    instr[-1] = not instr[-1]
+                j += 1
+            if depth:
+                raise ValueError("unterminated splice in %r" % tok)
+            out.append(("lit", tok[start:i + 2])); out.append(("body", tok[i + 2:j - 2]))
+            start = j - 2
+            i = j
+            continue
+        i += 1
+    out.append(("lit", tok[start:]))
+    return out
+
+
+def relayout(text, rng, comments=True, stars=False, inner=False):
+    """White space, newlines and comments between all tokens -- those of embedded programs included."""
     toks = tokens(text)
     out = []
     for i, t in enumerate(toks):
@@ -90,9 +125,13 @@ def relayout(text, rng, comments=True, stars=False):
                 pool = COMMENTS + (STAR_COMMENTS if stars else [])
                 sep = sep + rng.choice(pool) + rng.choice(SPACES)
             out.append(sep)
+        if (t[0] == '"' or t.startswith('r"')) and "%(" in t:
+            t = "".join(piece if kind == "lit" else " " + relayout(piece, rng, comments, stars, inner=True) + " "
+                        for kind, piece in split_fmt(t))
         out.append(t)
+    # a line comment runs to the end of the line: inside a splice it must not be the last thing before %)
     lead = rng.choice(["", " ", "\n", "/* lead */ "]) if comments else ""
-    trail = rng.choice(["", " ", "\n", " # end"]) if comments else ""
+    trail = rng.choice(["", " ", "\n"] + ([] if inner else [" # end"])) if comments else ""
     return lead + "".join(out) + trail
 
 
